@@ -28,7 +28,7 @@ func init() {
 				Setup:    func(c *harness.Ctx) { hooksOn() },
 				Run:      runC16,
 				Finish:   reportHooks,
-				Required: []string{"key:empty", "key:control", "key:astral", "key:backslash", "key:quote", "spelling:dot", "spelling:single", "spelling:double", "spelling:recursive-dot", "spelling:filter", "spelling:rootless", "spelling:hex-upper", "spelling:hex-lower", "spelling:hex-mixed"},
+				Required: []string{"key:empty", "key:control", "key:astral", "key:backslash", "key:quote", "spelling:dot", "spelling:single", "spelling:double", "spelling:recursive-dot", "spelling:filter", "spelling:rootless", "spelling:hex-upper", "spelling:hex-lower", "spelling:hex-mixed", "spelling:lone-surrogate"},
 			}
 		},
 	})
@@ -117,6 +117,15 @@ func runC16(c *harness.Ctx, k int) {
 		if taken {
 			label += "_"
 		}
+	}
+	// keys containing U+FFFD: every U+FFFD written as an unpaired surrogate escape (JSON-style decoding yields U+FFFD)
+	if strings.ContainsRune(key, 0xFFFD) {
+		pick := func(n int) int { return r.Intn(n) }
+		qs = append(qs,
+			q{"lone-surrogate", "$[" + spec.QuoteKeyLoneSurrogates(key, k%2 == 0, pick) + "]", doc, hit},
+			q{"lone-surrogate-recursive", "$..[" + spec.QuoteKeyLoneSurrogates(key, k%2 == 1, pick) + "]", doc, hit},
+			q{"lone-surrogate-nested", "$.o[" + spec.QuoteKeyLoneSurrogates(key, k%3 == 0, pick) + "]", nested, hit},
+		)
 	}
 	fdoc := []interface{}{map[string]interface{}{key: "HIT", label: "yes"}}
 	for i, s := range gen.NearMisses(key) {
